@@ -52,7 +52,7 @@ HARNESS(h_limit) {
   if (indef_refused) { WIT(1); P(r.f0 == k_enc_errc(3, IN_kind == E_BEGIN_ARRAY ? 3 : 4) && r.f3 == 0, "msgpack: container without length refused, nothing written"); return; }
   if ((s64)IN_d0 + 1 > (s64)IN_m) {
     P(r.f0 != 0 && r.f1 == 0, "opening a container beyond max_nesting_depth is refused");
-    P(r.f0 == emax || (FMT == 3 && IN_len > 0xffffffffULL && (IN_kind == E_BEGIN_ARRAY_LEN || IN_kind == E_BEGIN_OBJECT_LEN)), "the refusal is max_nesting_depth_exceeded (MessagePack may report an unrepresentable length first)");
+    /* which error code is reported is not part of the property (today: max_nesting_depth_exceeded, or too_many_items first for an unrepresentable MessagePack length) */
     P(r.f3 == 0 && r.f4 == 0, "a refused container writes nothing and pushes no state");
   } else {
     P(r.f0 != emax, "a container exactly at or below the limit is accepted");
